@@ -236,6 +236,9 @@ func (h *histRec) judge(t *rapid.T, steps int, view *sysbind.Raft, what string, 
 
 func TestC09Linearizable(t *testing.T) {
 	rapid.Check(t, func(t *rapid.T) {
+		if vstat.OverBudget() {
+			return
+		}
 		vstat.Case()
 		h := newHistRec()
 		run, msg := sysbind.DriveRaft(t, sysbind.RaftDriveOpts{
